@@ -56,6 +56,9 @@ CONSTANTS NCells,     \* MC: number of heap cells
           LendsOld,        \* deviation: the write leaves the caller's cell sharing memory with the old stored cell
                            \* (a pointer, slice or map of the old message is assigned into the caller's message);
                            \* the committed state is a proper copy
+          MergeFiltersSrc, \* deviation: a masked write (update mask and/or writable fields) applies its masks to the
+                           \* written message in place; harmless for a fresh message, but the written message may be
+                           \* one obtained earlier from a read, a write result or an event (of this or another resource)
           InitKinds,  \* configurations the object may be constructed in: "absent" (a Value without initial value,
                       \* an empty Collection: nothing stored yet) and/or "present" (initial value / records)
           NCases,     \* Gen: number of walks
@@ -81,6 +84,7 @@ Absent  == -3
 Vals    == 0..(NVals - 1)
 Garbage == -1          \* what a scribble leaves in every field
 Edited  == -2          \* what a read that edits its result leaves
+Filtered == -4         \* what is left of a message that a mask was applied to in place
 
 ----------------------------------------------------------------------------
 (* Crossing the boundary                                                   *)
@@ -146,6 +150,35 @@ Write(v) ==
              THEN lent \cup { <<x, stored>> : x \in { y \in used' \ used : dir'[y] \in {"in", "both"} } }
              ELSE lent
 
+(* The source of the written message.  Write(v) above writes a FRESH message *)
+(* the caller built.  WriteFrom(s, masked) writes a message s the caller     *)
+(* holds because the object handed it out earlier (read result, write        *)
+(* result, event value - possibly the stored cell itself), optionally with   *)
+(* an update mask and/or writable fields.  The caller does not own s: it is  *)
+(* not an "in" cell and is never scribbled on.  The reference design merges  *)
+(* a copy of s; with MergeFiltersSrc the masks cut s down where it is.       *)
+Held == { x \in used : dir[x] \in {"out", "both"} /\ x \notin scribbled }
+WriteFrom(s, masked) ==
+  /\ s \in Held
+  /\ last' = "write" /\ c' = c /\ scribbled' = scribbled /\ lent' = lent
+  /\ \E n \in Free :
+       LET cut == masked /\ MergeFiltersSrc
+           v  == IF cut THEN Filtered ELSE heap[s]
+           h1 == [heap EXCEPT ![n] = v, ![s] = v]
+           x  == CrossAll(dir, frozen, h1, {n, stored}, "out")
+       IN /\ heap' = h1 /\ used' = used \cup {n} /\ stored' = n /\ model' = v
+          /\ dir' = x.dir2 /\ frozen' = x.frz
+
+(* The same held message handed to a write on ANOTHER resource (a Value fed   *)
+(* from a Collection's item, the active mode set from the modes collection):  *)
+(* this object is not written at all - its stored state and everything it    *)
+(* handed out stay as they were.                                              *)
+WriteOther(s, masked) ==
+  /\ s \in Held
+  /\ last' = "other"
+  /\ heap' = IF masked /\ MergeFiltersSrc THEN [heap EXCEPT ![s] = Filtered] ELSE heap
+  /\ UNCHANGED <<used, stored, model, dir, frozen, scribbled, lent, c>>
+
 (* A read-only operation (Get, List, Pull with its seed, Describe) hands    *)
 (* out the stored cell itself (no mask) or a copy (mask).                   *)
 Read ==
@@ -186,6 +219,7 @@ Forget(a) ==
 Recheck == last' = "recheck" /\ UNCHANGED <<heap, used, stored, model, dir, frozen, scribbled, lent, c>>
 
 Op == (\E v \in Vals : Write(v)) \/ Read
+      \/ (\E s \in Cells, masked \in BOOLEAN : WriteFrom(s, masked) \/ WriteOther(s, masked))
 Next == Op \/ (\E a \in Cells : CallerScribble(a) \/ Forget(a)) \/ Recheck
 Spec == Init /\ [][Next]_vars
 
@@ -202,7 +236,7 @@ HandedOutStable ==
 StoreIsolated == heap[stored] = model
 
 ReadOnlyFrame ==
-  [][last' \in {"read", "recheck", "forget"} => (model' = model /\ heap'[stored'] = heap[stored])]_vars
+  [][last' \in {"read", "recheck", "forget", "other"} => (model' = model /\ heap'[stored'] = heap[stored])]_vars
 
 \* the bound on live handles is respected by construction of the heap
 Bounded == Cardinality(used) <= NCells
@@ -229,8 +263,11 @@ R(S) == RandomElement(S)
 Pick(z, seq) == seq[RandomElement(1..Len(seq))]
 Step(z) ==
   LET k == Pick(z, <<"call", "call", "call", "call", "call", "call", "call", "call", "call", "recheck">>)
+  \* src: the written message is fresh, or (where the operation is a plain write) the pick-th message the caller
+  \* holds from an earlier read, result or event; masked writes are chosen by the harness from arg
   IN [kind |-> k, op |-> R(0..9999), arg |-> R(0..999999),
-      delay |-> Pick(z, <<0, 0, 0, 0, 1, 1, 2, 5>>)]
+      delay |-> Pick(z, <<0, 0, 0, 0, 1, 1, 2, 5>>),
+      src |-> Pick(z, <<"fresh", "fresh", "fresh", "held", "held">>), pick |-> R(0..999)]
 \* init = the configuration the object is constructed in (one of InitKinds)
 Walk(k) == [n |-> k, init |-> R(InitKinds), steps |-> [j \in 1..R(MinOps..MaxOps) |-> Step(k)]]
 
